@@ -133,6 +133,7 @@ def derived_items(tier, seed):
                 s = rng.stream(NAME, tier, seed, k, "derived")
                 out.append({"id": "derived/%d-%s-%s" % (k, src.split(".")[0][:6], variant), "type": "derived", "source": path,
                             "variant": variant, "gen_seed": s.getrandbits(48), "find_gaps": s.random() < 0.3,
+                            "as_cif": k % 3 == 1,
                             "v2": True, "v2_repeat": False, "cli": False,
                             "lib": PLAN[tier]["cli_all_variants"] and rep == 0, "lib_repeat": False, "cost": 400000})
                 k += 1
